@@ -4,5 +4,726 @@ Import ListNotations.
 Require Import V.models.Quota.
 Open Scope Z_scope.
 
-Lemma step_refused_unchanged : forall ncpu st q, step ncpu st q = None -> run ncpu st [q] = st.
-Proof. intros ncpu st q H. simpl. rewrite H. reflexivity. Qed.
+(* ---------------------------------------------------------------- induction on groups *)
+
+Section GroupInd.
+  Variable P : group -> Prop.
+  Hypothesis H : forall i l ss, Forall P ss -> P (G i l ss).
+  Fixpoint group_ind' (g : group) : P g :=
+    match g with
+    | G i l ss => H i l ss ((fix go (cs : list group) : Forall P cs :=
+                              match cs with
+                              | [] => Forall_nil P
+                              | c :: r => Forall_cons c (group_ind' c) (go r)
+                              end) ss)
+    end.
+End GroupInd.
+
+(* ---------------------------------------------------------------- reservations as sums of contributions *)
+
+Definition contrib (f : limits -> Z) (g : group) : Z := Z.max (f (lim g)) (resv f g).
+Fixpoint sumc (f : limits -> Z) (ss : list group) : Z :=
+  match ss with [] => 0 | c :: r => contrib f c + sumc f r end.
+
+Lemma resv_eq : forall f i l ss, resv f (G i l ss) = sumc f ss.
+Proof.
+  intros f i l ss. simpl. induction ss as [|c r IH].
+  - reflexivity.
+  - simpl. unfold contrib. rewrite IH. reflexivity.
+Qed.
+
+Lemma fits_eq : forall f i l ss,
+  fits f (G i l ss) = ((f l =? 0) || (sumc f ss <=? f l)) && forallb (fits f) ss.
+Proof.
+  intros f i l ss. change (fits f (G i l ss)) with
+    (((f l =? 0) || (resv f (G i l ss) <=? f l)) &&
+     (fix all (cs : list group) : bool := match cs with [] => true | c :: r => fits f c && all r end) ss).
+  rewrite resv_eq. f_equal; try (induction ss as [|c r IH]; [reflexivity|simpl; rewrite IH; reflexivity]).
+Qed.
+
+(* every limit selected by f in the tree is non-negative *)
+Fixpoint nn (f : limits -> Z) (g : group) : bool :=
+  match g with G _ l ss => (0 <=? f l) && forallb (nn f) ss end.
+
+Lemma sumc_nonneg : forall f ss, forallb (nn f) ss = true -> 0 <= sumc f ss.
+Proof.
+  intros f ss. induction ss as [|c r IH]; simpl; intro H; [lia|].
+  apply andb_true_iff in H. destruct H as [Hc Hr]. specialize (IH Hr).
+  destruct c as [i l cs]. simpl in Hc. apply andb_true_iff in Hc. destruct Hc as [Hl _].
+  unfold contrib. simpl lim. lia.
+Qed.
+
+Lemma resv_nonneg : forall f g, nn f g = true -> 0 <= resv f g.
+Proof. intros f [i l ss] H. rewrite resv_eq. simpl in H. apply andb_true_iff in H. apply sumc_nonneg. tauto. Qed.
+
+(* ---------------------------------------------------------------- replacing one child *)
+
+Lemma sumc_replace : forall f ss i c c', nth_error ss i = Some c ->
+  sumc f (replace_nth ss i c') = sumc f ss + contrib f c' - contrib f c.
+Proof.
+  intros f ss. induction ss as [|x r IH]; intros i c c' H.
+  - destruct i; discriminate.
+  - destruct i as [|i]; simpl in *.
+    + inversion H; subst. lia.
+    + rewrite (IH _ _ c' H). lia.
+Qed.
+
+Lemma forallb_replace : forall (p : group -> bool) ss i c', forallb p ss = true -> p c' = true ->
+  forallb p (replace_nth ss i c') = true.
+Proof.
+  intros p ss. induction ss as [|x r IH]; intros i c' H Hc; [reflexivity|].
+  simpl in H. apply andb_true_iff in H. destruct H as [Hx Hr].
+  destruct i as [|i]; simpl; [rewrite Hc, Hr|rewrite Hx, (IH _ _ Hr Hc)]; reflexivity.
+Qed.
+
+Lemma forallb_nth : forall (p : group -> bool) ss i c, forallb p ss = true -> nth_error ss i = Some c -> p c = true.
+Proof.
+  intros p ss. induction ss as [|x r IH]; intros i c H E; destruct i; simpl in *; try discriminate;
+    apply andb_true_iff in H; destruct H as [Hx Hr].
+  - inversion E; subst. exact Hx.
+  - exact (IH _ _ Hr E).
+Qed.
+
+(* ---------------------------------------------------------------- the nearest limited ancestor along a path *)
+
+(* nearest group on the path from g (included) to the target (excluded) that has the limit selected by f *)
+Fixpoint nla (f : limits -> Z) (g : group) (p : list nat) : option group :=
+  match p with
+  | [] => None
+  | i :: p' => match nth_error (subs g) i with
+               | None => None
+               | Some c => match nla f c p' with
+                           | Some a => Some a
+                           | None => if negb (f (lim g) =? 0) then Some g else None
+                           end
+               end
+  end.
+
+Fixpoint get (g : group) (p : list nat) : option group :=
+  match p with
+  | [] => Some g
+  | i :: p' => match nth_error (subs g) i with None => None | Some c => get c p' end
+  end.
+
+Lemma walk_get : forall p inh g acc inh' t chain,
+  walk inh g p acc = Some (inh', t, chain) -> get g p = Some t.
+Proof.
+  induction p as [|i p IH]; intros inh g acc inh' t chain H; simpl in *.
+  - inversion H; subst. reflexivity.
+  - destruct (nth_error (subs g) i) as [c|]; [|discriminate]. exact (IH _ _ _ _ _ _ H).
+Qed.
+
+Definition limited (f : limits -> Z) (a : anc) : bool := negb (f (lim (snd a)) =? 0).
+
+Lemma walk_find : forall f p inh g acc inh' t chain,
+  walk inh g p acc = Some (inh', t, chain) ->
+  option_map snd (find (limited f) chain) =
+  match nla f g p with Some a => Some a | None => option_map snd (find (limited f) acc) end.
+Proof.
+  intros f. induction p as [|i p IH]; intros inh g acc inh' t chain H; simpl in *.
+  - inversion H; subst. reflexivity.
+  - destruct (nth_error (subs g) i) as [c|]; [|discriminate].
+    rewrite (IH _ _ _ _ _ _ H). destruct (nla f c p); [reflexivity|].
+    simpl. unfold limited at 1. simpl. destruct (negb (f (lim g) =? 0)); reflexivity.
+Qed.
+
+(* a limited group on the path of a fitting tree holds its children *)
+Lemma nla_fits : forall f p g a, fits f g = true -> nla f g p = Some a ->
+  f (lim a) <> 0 /\ resv f a <= f (lim a).
+Proof.
+  intros f. induction p as [|i p IH]; intros g a Hf H; simpl in H; [discriminate|].
+  destruct g as [gi l ss]. simpl in H.
+  destruct (nth_error ss i) as [c|] eqn:E; [|discriminate].
+  rewrite fits_eq in Hf. apply andb_true_iff in Hf. destruct Hf as [Hl Hs].
+  destruct (nla f c p) as [a'|] eqn:En.
+  - inversion H; subst. exact (IH _ _ (forallb_nth _ _ _ _ Hs E) En).
+  - destruct (f l =? 0) eqn:Z0; simpl in H; [discriminate|]. inversion H; subst.
+    rewrite resv_eq. simpl. simpl in Hl. apply Z.leb_le in Hl. apply Z.eqb_neq in Z0. split; assumption.
+Qed.
+
+(* ---------------------------------------------------------------- the framing lemma *)
+
+(* Replace the group at path p by t' whose contribution differs by d. If the nearest limited ancestor (if any) has
+   room for d, the tree still fits; the contribution of the whole tree moves by d exactly when no ancestor is limited. *)
+Lemma modify_fits : forall f t' d p g t,
+  fits f g = true -> nn f g = true -> get g p = Some t ->
+  fits f t' = true -> nn f t' = true -> contrib f t' = contrib f t + d ->
+  (forall a, nla f g p = Some a -> resv f a + d <= f (lim a)) ->
+  let g' := modify g p (fun _ => t') in
+  fits f g' = true /\ nn f g' = true /\
+  contrib f g' = contrib f g + (match nla f g p with Some _ => 0 | None => d end).
+Proof.
+  intros f t' d. induction p as [|i p IH]; intros g t Hf Hn Hg Hft Hnt Hc Hroom; cbn [get nla modify] in *.
+  - inversion Hg; subst. repeat split; solve [assumption | lia].
+  - destruct g as [gi l ss]. cbn [subs lim gid] in *.
+    destruct (nth_error ss i) as [c|] eqn:E; [|discriminate].
+    cbn [nn] in Hn.
+    pose proof Hf as Hf0. rewrite fits_eq in Hf. apply andb_true_iff in Hf. destruct Hf as [Hl Hs].
+    apply andb_true_iff in Hn. destruct Hn as [Hl0 Hns]. apply Z.leb_le in Hl0.
+    assert (Hfc : fits f c = true) by exact (forallb_nth _ _ _ _ Hs E).
+    assert (Hnc : nn f c = true) by exact (forallb_nth _ _ _ _ Hns E).
+    assert (Hroomc : forall a, nla f c p = Some a -> resv f a + d <= f (lim a)).
+    { intros a Ha. apply Hroom. rewrite Ha. reflexivity. }
+    destruct (IH c t Hfc Hnc Hg Hft Hnt Hc Hroomc) as [Hfc' [Hnc' Hcc']].
+    set (c' := modify c p (fun _ => t')) in *.
+    assert (Hsum : sumc f (replace_nth ss i c') = sumc f ss + contrib f c' - contrib f c) by exact (sumc_replace _ _ _ _ _ E).
+    assert (Hnn' : forallb (nn f) (replace_nth ss i c') = true) by exact (forallb_replace _ _ _ _ Hns Hnc').
+    assert (Hpos' : 0 <= sumc f (replace_nth ss i c')) by exact (sumc_nonneg _ _ Hnn').
+    assert (Hpos : 0 <= sumc f ss) by exact (sumc_nonneg _ _ Hns).
+    cbv zeta. rewrite fits_eq. cbn [nn]. unfold contrib. cbn [lim]. rewrite !resv_eq.
+    rewrite (forallb_replace _ _ _ _ Hs Hfc'). rewrite Hnn'.
+    assert (Hl0b : (0 <=? f l) = true) by (apply Z.leb_le; exact Hl0). rewrite Hl0b.
+    destruct (nla f c p) as [a|] eqn:En.
+    + (* limited ancestor further down: nothing changes here *)
+      rewrite Hsum, Hcc'. replace (sumc f ss + (contrib f c + 0) - contrib f c) with (sumc f ss) by lia.
+      rewrite Hl. repeat split; reflexivity || lia.
+    + destruct (f l =? 0) eqn:Z0; simpl.
+      * (* unlimited group: the change passes through *)
+        apply Z.eqb_eq in Z0. repeat split; try reflexivity. rewrite Hsum, Hcc', Z0. lia.
+      * (* this group is the nearest limited ancestor *)
+        apply Z.eqb_neq in Z0. simpl in Hl. apply Z.leb_le in Hl.
+        assert (Hr : sumc f ss + d <= f l).
+        { specialize (Hroom (G gi l ss)). rewrite resv_eq in Hroom. simpl in Hroom. apply Hroom.
+          destruct (f l =? 0) eqn:Z1; [apply Z.eqb_eq in Z1; contradiction|reflexivity]. }
+        assert (Hle : sumc f (replace_nth ss i c') <= f l) by (rewrite Hsum, Hcc'; lia).
+        repeat split; try reflexivity.
+        -- apply andb_true_iff. split; [|reflexivity]. apply Z.leb_le. exact Hle.
+        -- lia.
+Qed.
+
+(* ---------------------------------------------------------------- what the scalar validator guarantees *)
+
+Lemma vs_known : forall f g chain v, validate_scalar f true g chain v = true ->
+  resv f g <= v /\
+  (v < f (lim g) \/
+   forall x a, find (limited f) chain = Some (x, a) -> resv f a + v - Z.max (f (lim g)) (resv f g) <= f (lim a)).
+Proof.
+  intros f g chain v H. unfold validate_scalar in H. cbn [andb] in H.
+  destruct (resv f g >? v) eqn:E1; [discriminate|].
+  assert (resv f g <= v) by (rewrite Z.gtb_ltb in E1; apply Z.ltb_ge in E1; exact E1).
+  split; [assumption|].
+  destruct (v <? f (lim g)) eqn:E2; [left; apply Z.ltb_lt; exact E2|]. right.
+  intros x a Hfind. change (fun a0 : anc => negb (f (lim (snd a0)) =? 0)) with (limited f) in H.
+  rewrite Hfind in H. cbn [snd] in H. apply negb_true_iff in H. rewrite Z.gtb_ltb in H. apply Z.ltb_ge in H. lia.
+Qed.
+
+Lemma vs_new : forall f g chain v, validate_scalar f false g chain v = true ->
+  forall x a, find (limited f) chain = Some (x, a) -> resv f a + v - f (lim g) <= f (lim a).
+Proof.
+  intros f g chain v H x a Hfind. unfold validate_scalar in H. cbn [andb] in H.
+  change (fun a0 : anc => negb (f (lim (snd a0)) =? 0)) with (limited f) in H.
+  rewrite Hfind in H. cbn [snd] in H. apply negb_true_iff in H. rewrite Z.gtb_ltb in H. apply Z.ltb_ge in H. lia.
+Qed.
+
+Lemma modify_const : forall p g t tf, get g p = Some t -> modify g p tf = modify g p (fun _ => tf t).
+Proof.
+  induction p as [|i p IH]; intros g t tf H; cbn [get modify] in *.
+  - inversion H; subst. reflexivity.
+  - destruct (nth_error (subs g) i) as [c|]; [|reflexivity]. rewrite (IH c t tf H). reflexivity.
+Qed.
+
+Lemma sumc_app : forall f a b, sumc f (a ++ b) = sumc f a + sumc f b.
+Proof. intros f a b. induction a as [|x r IH]; simpl; [reflexivity|]. rewrite IH. lia. Qed.
+
+Lemma find_of_nla : forall f chain a,
+  option_map snd (find (limited f) chain) = Some a -> exists x, find (limited f) chain = Some (x, a).
+Proof.
+  intros f chain a H. destruct (find (limited f) chain) as [[x b]|]; [|discriminate].
+  simpl in H. inversion H; subst. exists x. reflexivity.
+Qed.
+
+(* ---------------------------------------------------------------- one request preserves the fit (memory, threads) *)
+
+Section Scalar.
+  Variable f : limits -> Z.
+  Variable sel : res -> option Z.
+  Hypothesis f_apply : forall l r, f (apply_res l r) = match sel r with Some v => v | None => f l end.
+  Hypothesis f_zero : f no_limits = 0.
+  Hypothesis fit_sel : forall ncpu known inh g chain r, validate_fit ncpu known inh g chain r = true ->
+    match sel r with Some v => validate_scalar f known g chain v = true | None => True end.
+  Hypothesis sub_nonneg : forall r, validate_change no_limits r = true ->
+    validate_limits (apply_res no_limits r) = true -> 0 <= f (apply_res no_limits r).
+
+  Definition Inv (st : forest) : Prop := forallb (fits f) st = true /\ forallb (nn f) st = true.
+
+  Lemma update_limits_inv : forall ncpu known inh g chain r l',
+    update_limits ncpu known inh g chain r = Some l' ->
+    l' = apply_res (lim g) r /\ validate_change (lim g) r = true /\ validate_fit ncpu known inh g chain r = true.
+  Proof.
+    intros ncpu known inh g chain r l' H. unfold update_limits in H.
+    destruct (validate_change (lim g) r) eqn:E1; [|discriminate].
+    destruct (validate_fit ncpu known inh g chain r) eqn:E2; [|discriminate].
+    inversion H; subst. auto.
+  Qed.
+
+  Lemma forest_replace : forall st i root root', Inv st -> nth_error st i = Some root ->
+    fits f root' = true -> nn f root' = true -> Inv (replace_nth st i root').
+  Proof.
+    intros st i root root' [H1 H2] E Hf Hn. split; apply forallb_replace; assumption.
+  Qed.
+
+  Lemma step_preserves : forall ncpu st q st', Inv st -> step ncpu st q = Some st' -> Inv st'.
+  Proof.
+    intros ncpu st q st' HI H. destruct q as [id r | p id r | p r]; cbn [step] in H.
+    - (* NewGroup *)
+      destruct (update_limits ncpu true [] (G id no_limits []) [] r) as [l'|] eqn:U; [|discriminate].
+      destruct (validate_limits l'); [|discriminate]. inversion H; subst st'; clear H.
+      apply update_limits_inv in U. destruct U as [El [Hvc Hvf]]. cbn [lim] in *.
+      assert (Hv : 0 <= f l').
+      { subst l'. rewrite f_apply, f_zero. pose proof (fit_sel _ _ _ _ _ _ Hvf) as Hs.
+        destruct (sel r) as [v|]; [|lia]. apply vs_known in Hs. destruct Hs as [Hs _].
+        rewrite resv_eq in Hs. simpl in Hs. exact Hs. }
+      destruct HI as [H1 H2]. split; rewrite forallb_app; [rewrite H1|rewrite H2]; cbn [forallb andb].
+      + rewrite fits_eq. cbn [sumc forallb]. assert ((0 <=? f l') = true) by (apply Z.leb_le; exact Hv).
+        rewrite H. rewrite orb_true_r. reflexivity.
+      + cbn [nn forallb]. assert ((0 <=? f l') = true) by (apply Z.leb_le; exact Hv). rewrite H. reflexivity.
+    - (* NewSubGroup *)
+      destruct p as [|i p]; [discriminate|].
+      destruct (nth_error st i) as [root|] eqn:Er; [|discriminate].
+      destruct (walk [] root p []) as [[[pinh P] chain]|] eqn:W; [|discriminate].
+      destruct (update_limits ncpu false (eff_set pinh (lim P)) (G id no_limits []) ((pinh, P) :: chain) r) as [l'|] eqn:U; [|discriminate].
+      destruct (negb (N.eqb id (gid P)) && validate_limits l') eqn:V; [|discriminate].
+      inversion H; subst st'; clear H.
+      apply andb_true_iff in V. destruct V as [_ Vl].
+      apply update_limits_inv in U. destruct U as [El [Hvc Hvf]]. cbn [lim] in *.
+      assert (Hv : 0 <= f l') by (subst l'; apply sub_nonneg; [exact Hvc|exact Vl]).
+      pose proof (walk_get _ _ _ _ _ _ _ W) as Hget.
+      pose proof (walk_find f _ _ _ _ _ _ _ W) as Hfind. cbn [find option_map] in Hfind.
+      destruct HI as [H1 H2].
+      assert (Hfr : fits f root = true) by exact (forallb_nth _ _ _ _ H1 Er).
+      assert (Hnr : nn f root = true) by exact (forallb_nth _ _ _ _ H2 Er).
+      set (n := G id l' []).
+      assert (Hcn : contrib f n = f l').
+      { unfold contrib, n. cbn [lim]. rewrite resv_eq. cbn [sumc]. lia. }
+      assert (Hfn : fits f n = true).
+      { unfold n. rewrite fits_eq. cbn [sumc forallb]. assert ((0 <=? f l') = true) by (apply Z.leb_le; exact Hv).
+        rewrite H. rewrite orb_true_r. reflexivity. }
+      assert (Hnn : nn f n = true).
+      { unfold n. cbn [nn forallb]. assert ((0 <=? f l') = true) by (apply Z.leb_le; exact Hv). rewrite H. reflexivity. }
+      rewrite (modify_const _ _ _ _ Hget).
+      (* the parent as a group of the fitting tree *)
+      assert (HP : fits f P = true /\ nn f P = true).
+      { clear - Hfr Hnr Hget. revert root Hfr Hnr Hget. induction p as [|j p IH]; intros root Hfr Hnr Hget; cbn [get] in Hget.
+        - inversion Hget; subst. auto.
+        - destruct root as [ri rl rss]. cbn [subs] in Hget. destruct (nth_error rss j) as [c|] eqn:E; [|discriminate].
+          rewrite fits_eq in Hfr. apply andb_true_iff in Hfr. destruct Hfr as [_ Hs].
+          cbn [nn] in Hnr. apply andb_true_iff in Hnr. destruct Hnr as [_ Hns].
+          exact (IH c (forallb_nth _ _ _ _ Hs E) (forallb_nth _ _ _ _ Hns E) Hget). }
+      destruct HP as [HfP HnP]. destruct P as [pi pl pss]. cbn [gid lim subs] in *.
+      pose proof HfP as HfP0. rewrite fits_eq in HfP. apply andb_true_iff in HfP. destruct HfP as [HlP HsP].
+      pose proof HnP as HnP0. cbn [nn] in HnP. apply andb_true_iff in HnP. destruct HnP as [Hl0P HnsP].
+      apply Z.leb_le in Hl0P. pose proof (sumc_nonneg _ _ HnsP) as HposP.
+      set (P' := G pi pl (pss ++ [n])).
+      assert (HnP' : nn f P' = true).
+      { unfold P'. cbn [nn]. rewrite forallb_app, HnsP. cbn [forallb]. rewrite Hnn.
+        assert ((0 <=? f pl) = true) by (apply Z.leb_le; exact Hl0P). rewrite H. reflexivity. }
+      assert (Hsum' : sumc f (pss ++ [n]) = sumc f pss + f l').
+      { rewrite sumc_app. cbn [sumc]. rewrite Hcn. lia. }
+      (* the value the validator saw *)
+      assert (Hval : f l' = 0 \/ validate_scalar f false (G id no_limits []) ((pinh, G pi pl pss) :: chain) (f l') = true).
+      { subst l'. rewrite f_apply, f_zero. pose proof (fit_sel _ _ _ _ _ _ Hvf) as Hs.
+        destruct (sel r) as [v|]; [right; exact Hs|left; reflexivity]. }
+      assert (Hmain : exists d, fits f P' = true /\ contrib f P' = contrib f (G pi pl pss) + d /\
+                (forall a, nla f root p = Some a -> resv f a + d <= f (lim a))).
+      { destruct Hval as [Hz|Hvs].
+        - exists 0. unfold P'. rewrite fits_eq. unfold contrib. cbn [lim]. rewrite !resv_eq, Hsum', Hz.
+          rewrite Z.add_0_r, HlP, forallb_app, HsP. cbn [forallb]. rewrite Hfn.
+          split; [reflexivity|]. split; [lia|]. intros a Ha. destruct (nla_fits _ _ _ _ Hfr Ha). lia.
+        - pose proof (vs_new _ _ _ _ Hvs) as Hroom. cbn [lim] in Hroom. rewrite f_zero in Hroom.
+          cbn [find] in Hroom. unfold limited at 1 in Hroom. cbn [snd lim] in Hroom.
+          destruct (f pl =? 0) eqn:Z0; cbn [negb] in Hroom.
+          + (* unlimited parent: the new reservation passes upwards *)
+            apply Z.eqb_eq in Z0. exists (f l'). unfold P'. rewrite fits_eq. unfold contrib. cbn [lim].
+            rewrite !resv_eq, Hsum', Z0. cbn [Z.eqb orb]. rewrite forallb_app, HsP. cbn [forallb]. rewrite Hfn.
+            split; [reflexivity|]. split; [lia|]. intros a Ha.
+            rewrite Ha in Hfind.
+            destruct (find_of_nla _ _ _ Hfind) as [x Hx]. specialize (Hroom x a Hx). lia.
+          + (* the parent itself has the limit *)
+            apply Z.eqb_neq in Z0. specialize (Hroom pinh (G pi pl pss) eq_refl). rewrite resv_eq in Hroom. cbn [lim] in Hroom.
+            exists 0. unfold P'. rewrite fits_eq. unfold contrib. cbn [lim]. rewrite !resv_eq, Hsum'.
+            assert (Hle : (sumc f pss + f l' <=? f pl) = true) by (apply Z.leb_le; lia).
+            rewrite Hle, orb_true_r, forallb_app, HsP. cbn [forallb]. rewrite Hfn.
+            split; [reflexivity|]. cbn [orb] in HlP.
+            assert (sumc f pss <= f pl).
+            { destruct (f pl =? 0) eqn:Z1; [apply Z.eqb_eq in Z1; contradiction|]. cbn [orb] in HlP. apply Z.leb_le in HlP. exact HlP. }
+            split; [lia|]. intros a Ha. destruct (nla_fits _ _ _ _ Hfr Ha). lia. }
+      destruct Hmain as [d [HfP' [HcP' Hroom]]].
+      destruct (modify_fits f P' d p root (G pi pl pss) Hfr Hnr Hget HfP' HnP' HcP' Hroom) as [Hf' [Hn' _]].
+      exact (forest_replace _ _ _ _ (conj H1 H2) Er Hf' Hn').
+    - (* UpdateQuotaLimits *)
+      destruct p as [|i p]; [discriminate|].
+      destruct (nth_error st i) as [root|] eqn:Er; [|discriminate].
+      destruct (walk [] root p []) as [[[inh t] chain]|] eqn:W; [|discriminate].
+      destruct (update_limits ncpu true inh t chain r) as [l'|] eqn:U; [|discriminate].
+      inversion H; subst st'; clear H.
+      apply update_limits_inv in U. destruct U as [El [Hvc Hvf]].
+      pose proof (walk_get _ _ _ _ _ _ _ W) as Hget.
+      pose proof (walk_find f _ _ _ _ _ _ _ W) as Hfind. cbn [find option_map] in Hfind.
+      destruct HI as [H1 H2].
+      assert (Hfr : fits f root = true) by exact (forallb_nth _ _ _ _ H1 Er).
+      assert (Hnr : nn f root = true) by exact (forallb_nth _ _ _ _ H2 Er).
+      rewrite (modify_const _ _ _ _ Hget).
+      assert (HT : fits f t = true /\ nn f t = true).
+      { clear - Hfr Hnr Hget. revert root Hfr Hnr Hget. induction p as [|j p IH]; intros root Hfr Hnr Hget; cbn [get] in Hget.
+        - inversion Hget; subst. auto.
+        - destruct root as [ri rl rss]. cbn [subs] in Hget. destruct (nth_error rss j) as [c|] eqn:E; [|discriminate].
+          rewrite fits_eq in Hfr. apply andb_true_iff in Hfr. destruct Hfr as [_ Hs].
+          cbn [nn] in Hnr. apply andb_true_iff in Hnr. destruct Hnr as [_ Hns].
+          exact (IH c (forallb_nth _ _ _ _ Hs E) (forallb_nth _ _ _ _ Hns E) Hget). }
+      destruct HT as [Hft Hnt]. destruct t as [ti tl tss]. cbn [gid lim subs] in *.
+      pose proof Hft as Hft0. rewrite fits_eq in Hft. apply andb_true_iff in Hft. destruct Hft as [Hlt Hst].
+      pose proof Hnt as Hnt0. cbn [nn] in Hnt. apply andb_true_iff in Hnt. destruct Hnt as [Hl0t Hnst].
+      apply Z.leb_le in Hl0t. pose proof (sumc_nonneg _ _ Hnst) as Hpost.
+      set (t' := G ti l' tss).
+      assert (Hmain : exists d, fits f t' = true /\ nn f t' = true /\ contrib f t' = contrib f (G ti tl tss) + d /\
+                (forall a, nla f root p = Some a -> resv f a + d <= f (lim a))).
+      { assert (Hl' : f l' = match sel r with Some v => v | None => f tl end) by (subst l'; apply f_apply).
+        pose proof (fit_sel _ _ _ _ _ _ Hvf) as Hs.
+        destruct (sel r) as [v|].
+        - apply vs_known in Hs. destruct Hs as [Hrv Hpar]. rewrite resv_eq in Hrv, Hpar. cbn [lim] in Hpar.
+          exists (v - Z.max (f tl) (sumc f tss)). unfold t'. rewrite fits_eq. cbn [nn]. unfold contrib. cbn [lim].
+          rewrite !resv_eq, Hl', Hst, Hnst.
+          assert (Hle : (sumc f tss <=? v) = true) by (apply Z.leb_le; exact Hrv).
+          assert (H0v : (0 <=? v) = true) by (apply Z.leb_le; lia).
+          rewrite Hle, H0v, orb_true_r. split; [reflexivity|]. split; [reflexivity|]. split; [lia|].
+          intros a Ha. destruct (nla_fits _ _ _ _ Hfr Ha) as [_ Hfa].
+          destruct Hpar as [Hlt'|Hpar]; [lia|].
+          rewrite Ha in Hfind. destruct (find_of_nla _ _ _ Hfind) as [x Hx]. specialize (Hpar x a Hx). lia.
+        - exists 0. unfold t'. rewrite fits_eq. cbn [nn]. unfold contrib. cbn [lim]. rewrite !resv_eq, Hl', Hst, Hnst, Hlt.
+          assert (H0v : (0 <=? f tl) = true) by (apply Z.leb_le; lia). rewrite H0v.
+          split; [reflexivity|]. split; [reflexivity|]. split; [lia|].
+          intros a Ha. destruct (nla_fits _ _ _ _ Hfr Ha). lia. }
+      destruct Hmain as [d [Hft' [Hnt' [Hct' Hroom]]]].
+      destruct (modify_fits f t' d p root (G ti tl tss) Hfr Hnr Hget Hft' Hnt' Hct' Hroom) as [Hf' [Hn' _]].
+      exact (forest_replace _ _ _ _ (conj H1 H2) Er Hf' Hn').
+  Qed.
+
+  Lemma run_preserves : forall ncpu qs st, Inv st -> Inv (run ncpu st qs).
+  Proof.
+    intros ncpu qs. induction qs as [|q qs IH]; intros st HI; cbn [run]; [exact HI|].
+    apply IH. destruct (step ncpu st q) as [st'|] eqn:E; [exact (step_preserves _ _ _ _ HI E)|exact HI].
+  Qed.
+End Scalar.
+
+(* ---------------------------------------------------------------- memory and threads *)
+
+Lemma apply_mem : forall l r, l_mem (apply_res l r) = match r_mem r with Some v => v | None => l_mem l end.
+Proof. intros l r. unfold apply_res. destruct (r_cpu r) as [[c p]|]; reflexivity. Qed.
+Lemma apply_thr : forall l r, l_thr (apply_res l r) = match r_thr r with Some v => v | None => l_thr l end.
+Proof. intros l r. unfold apply_res. destruct (r_cpu r) as [[c p]|]; reflexivity. Qed.
+
+Lemma fit_mem : forall ncpu known inh g chain r, validate_fit ncpu known inh g chain r = true ->
+  match r_mem r with Some v => validate_scalar l_mem known g chain v = true | None => True end.
+Proof.
+  intros ncpu known inh g chain r H. unfold validate_fit in H.
+  repeat (apply andb_true_iff in H; destruct H as [H ?]). destruct (r_mem r); [exact H|exact I].
+Qed.
+Lemma fit_thr : forall ncpu known inh g chain r, validate_fit ncpu known inh g chain r = true ->
+  match r_thr r with Some v => validate_scalar l_thr known g chain v = true | None => True end.
+Proof.
+  intros ncpu known inh g chain r H. unfold validate_fit in H.
+  repeat (apply andb_true_iff in H; destruct H as [H ?]). destruct (r_thr r); [assumption|exact I].
+Qed.
+
+Lemma sub_nonneg_mem : forall r, validate_change no_limits r = true ->
+  validate_limits (apply_res no_limits r) = true -> 0 <= l_mem (apply_res no_limits r).
+Proof.
+  intros r H _. rewrite apply_mem. unfold validate_change in H.
+  repeat (apply andb_true_iff in H; destruct H as [H ?]).
+  destruct (r_mem r) as [m|]; [|simpl; lia].
+  repeat (apply andb_true_iff in H; destruct H as [H ?]).
+  match goal with X : negb (m <=? memory_limit_min) = true |- _ => apply negb_true_iff in X; apply Z.leb_gt in X;
+    unfold memory_limit_min in X; lia end.
+Qed.
+
+Lemma sub_nonneg_thr : forall r, validate_change no_limits r = true ->
+  validate_limits (apply_res no_limits r) = true -> 0 <= l_thr (apply_res no_limits r).
+Proof.
+  intros r _ H. unfold validate_limits in H. apply andb_true_iff in H. destruct H as [_ H].
+  destruct (l_thr (apply_res no_limits r) =? 0) eqn:E; [apply Z.eqb_eq in E; lia|].
+  apply negb_true_iff in H. apply Z.leb_gt in H. lia.
+Qed.
+
+Theorem fit_invariant_mem_threads : forall ncpu qs,
+  inv_mem (run ncpu [] qs) = true /\ inv_thr (run ncpu [] qs) = true.
+Proof.
+  intros ncpu qs. split.
+  - apply (run_preserves l_mem r_mem apply_mem eq_refl fit_mem sub_nonneg_mem ncpu qs []). split; reflexivity.
+  - apply (run_preserves l_thr r_thr apply_thr eq_refl fit_thr sub_nonneg_thr ncpu qs []). split; reflexivity.
+Qed.
+
+(* what `fits` says, group by group *)
+Inductive in_tree (x : group) : group -> Prop :=
+  | in_here : in_tree x x
+  | in_sub : forall i l ss c, In c ss -> in_tree x c -> in_tree x (G i l ss).
+
+Lemma fits_spec : forall f g, fits f g = true ->
+  forall x, in_tree x g -> f (lim x) <> 0 -> resv f x <= f (lim x).
+Proof.
+  intros f g. induction g as [i l ss IH] using group_ind'. intros Hf x Hin Hx.
+  rewrite fits_eq in Hf. apply andb_true_iff in Hf. destruct Hf as [Hl Hs].
+  inversion Hin; subst.
+  - rewrite resv_eq. cbn [lim] in *. destruct (f l =? 0) eqn:Z0; [apply Z.eqb_eq in Z0; contradiction|].
+    cbn [orb] in Hl. apply Z.leb_le in Hl. exact Hl.
+  - rewrite Forall_forall in IH. rewrite forallb_forall in Hs.
+    match goal with A : In ?c ss, B : in_tree x ?c |- _ => exact (IH c A (Hs c A) x B Hx) end.
+Qed.
+
+Theorem every_group_fits_mem_threads : forall ncpu qs root x,
+  In root (run ncpu [] qs) -> in_tree x root ->
+  (l_mem (lim x) <> 0 -> resv l_mem x <= l_mem (lim x)) /\
+  (l_thr (lim x) <> 0 -> resv l_thr x <= l_thr (lim x)).
+Proof.
+  intros ncpu qs root x Hr Hx. destruct (fit_invariant_mem_threads ncpu qs) as [Hm Ht].
+  unfold inv_mem, inv_thr in *. rewrite forallb_forall in Hm, Ht.
+  split; intro H; [exact (fits_spec _ _ (Hm _ Hr) x Hx H)|exact (fits_spec _ _ (Ht _ Hr) x Hx H)].
+Qed.
+
+(* the reservation of a group is the sum over its sub-groups of max(limit, reservation) *)
+Lemma resv_is_sum : forall f i l ss,
+  resv f (G i l ss) = fold_right (fun c acc => Z.max (f (lim c)) (resv f c) + acc) 0 ss.
+Proof. intros. rewrite resv_eq. induction ss as [|c r IH]; [reflexivity|]. simpl. rewrite IH. reflexivity. Qed.
+
+(* ---------------------------------------------------------------- a refused request changes nothing *)
+
+Lemma refused_unchanged : forall ncpu st q qs, step ncpu st q = None -> run ncpu st (q :: qs) = run ncpu st qs.
+Proof. intros ncpu st q qs H. cbn [run]. rewrite H. reflexivity. Qed.
+
+(* ---------------------------------------------------------------- the cpu fit is false: two witnesses *)
+
+Definition cpu_witness_1 : list req :=
+  [ RNew 1 (mkRes None (Some (2, 100)) (Some [0; 1]) None);
+    RSub [0%nat] 2 (mkRes None (Some (0, 50)) None None);
+    RUpd [0%nat] (mkRes None None (Some [0; 1; 2; 3; 4; 5; 6; 7]) None) ].
+
+Definition cpu_witness_2 : list req :=
+  [ RNew 1 (mkRes None (Some (2, 25)) None None);
+    RSub [0%nat] 2 (mkRes None None (Some [0; 2; 4; 5]) None);
+    RSub [0%nat; 0%nat] 3 (mkRes None (Some (4, 100)) None None) ].
+
+Definition all_accepted (ncpu : Z) (qs : list req) : bool :=
+  (fix go st qs := match qs with
+                   | [] => true
+                   | q :: r => match step ncpu st q with Some st' => go st' r | None => false end
+                   end) [] qs.
+
+Definition is_creation (q : req) : bool := match q with RUpd _ _ => false | _ => true end.
+
+Lemma cpu_fit_refuted : exists ncpu qs, all_accepted ncpu qs = true /\ inv_cpu ncpu (run ncpu [] qs) = false.
+Proof. exists 8, cpu_witness_1. split; vm_compute; reflexivity. Qed.
+
+Lemma cpu_fit_set_only_ancestor_refuted : exists ncpu qs,
+  forallb is_creation qs = true /\ all_accepted ncpu qs = true /\ inv_cpu ncpu (run ncpu [] qs) = false.
+Proof. exists 8, cpu_witness_2. repeat split; vm_compute; reflexivity. Qed.
+
+(* ---------------------------------------------------------------- cpu sets are nested *)
+
+Lemma sets_eq : forall inh i l ss,
+  sets_nested inh (G i l ss) = (nilb inh || is_superset inh (l_set l)) && forallb (sets_nested (eff_set inh l)) ss.
+Proof.
+  intros. cbn [sets_nested]. f_equal; try (induction ss as [|c r IH]; [reflexivity|simpl; rewrite IH; reflexivity]).
+Qed.
+
+Definition own_or_resv (c : group) : list Z := if nilb (l_set (lim c)) then set_resv c else l_set (lim c).
+
+Lemma set_resv_eq : forall i l ss, set_resv (G i l ss) = flat_map own_or_resv ss.
+Proof. intros. cbn [set_resv]. induction ss as [|c r IH]; [reflexivity|]. simpl. rewrite IH. reflexivity. Qed.
+
+Lemma contains_in : forall s e, contains s e = true <-> In e s.
+Proof.
+  intros s e. unfold contains. rewrite existsb_exists. split.
+  - intros [x [Hx He]]. apply Z.eqb_eq in He. subst. exact Hx.
+  - intro H. exists e. split; [exact H|apply Z.eqb_refl].
+Qed.
+
+Lemma superset_spec : forall a b, is_superset a b = true <-> (forall e, In e b -> In e a).
+Proof.
+  intros a b. unfold is_superset. rewrite forallb_forall. split; intros H e He.
+  - apply contains_in. exact (H e He).
+  - apply contains_in. exact (H e He).
+Qed.
+
+Lemma superset_trans : forall a b c, is_superset a b = true -> is_superset b c = true -> is_superset a c = true.
+Proof. intros a b c H1 H2. rewrite superset_spec in *. auto. Qed.
+
+Lemma superset_app : forall a x y, is_superset a (x ++ y) = is_superset a x && is_superset a y.
+Proof. intros. unfold is_superset. apply forallb_app. Qed.
+
+Lemma nilb_true : forall (l : list Z), nilb l = true -> l = [].
+Proof. destruct l; [reflexivity|discriminate]. Qed.
+
+(* the inherited set may be replaced by a larger one (or by none) *)
+Lemma nested_mono : forall c A B, sets_nested A c = true -> nilb A = false ->
+  nilb B || is_superset B A = true -> sets_nested B c = true.
+Proof.
+  induction c as [i l ss IH] using group_ind'. intros A B H HA HB.
+  rewrite sets_eq in *. apply andb_true_iff in H. destruct H as [Ho Hs]. rewrite HA in Ho. cbn [orb] in Ho.
+  apply andb_true_iff. split.
+  - destruct (nilb B) eqn:NB; [reflexivity|]. cbn [orb] in *. exact (superset_trans _ _ _ HB Ho).
+  - unfold eff_set in *. destruct (nilb (l_set l)) eqn:Nl; [|exact Hs].
+    rewrite forallb_forall in *. rewrite Forall_forall in IH. intros x Hx. exact (IH x Hx A B (Hs x Hx) HA HB).
+Qed.
+
+(* a new own set that covers everything reserved below is fine for the sub-groups *)
+Lemma nested_from_resv : forall c A B, sets_nested A c = true -> is_superset B (own_or_resv c) = true ->
+  sets_nested B c = true.
+Proof.
+  induction c as [i l ss IH] using group_ind'. intros A B H HB.
+  rewrite sets_eq in *. apply andb_true_iff in H. destruct H as [Ho Hs].
+  unfold own_or_resv in HB. cbn [lim] in HB. unfold eff_set in *.
+  destruct (nilb (l_set l)) eqn:Nl.
+  - apply nilb_true in Nl. rewrite Nl. apply andb_true_iff. split.
+    + unfold is_superset. cbn [forallb]. apply orb_true_r.
+    + rewrite set_resv_eq in HB. rewrite forallb_forall in *. rewrite Forall_forall in IH. intros x Hx.
+      apply (IH x Hx A B (Hs x Hx)). rewrite superset_spec in *. intros e He. apply HB. apply in_flat_map. exists x. auto.
+  - apply andb_true_iff. split; [rewrite HB; apply orb_true_r|exact Hs].
+Qed.
+
+Lemma children_from_resv : forall i l ss A B, forallb (sets_nested A) ss = true ->
+  is_superset B (set_resv (G i l ss)) = true -> forallb (sets_nested B) ss = true.
+Proof.
+  intros i l ss A B H HB. rewrite set_resv_eq in HB. rewrite forallb_forall in *. intros x Hx.
+  apply (nested_from_resv x A B (H x Hx)). rewrite superset_spec in *. intros e He. apply HB. apply in_flat_map. exists x. auto.
+Qed.
+
+Definition hasset (a : anc) : bool := negb (nilb (l_set (lim (snd a)))).
+Definition rel (inh : list Z) (acc : list anc) : Prop :=
+  inh = match find hasset acc with Some a => l_set (lim (snd a)) | None => [] end.
+
+Lemma walk_rel : forall p inh g acc inh' t chain, rel inh acc ->
+  walk inh g p acc = Some (inh', t, chain) -> rel inh' chain.
+Proof.
+  induction p as [|j p IH]; intros inh g acc inh' t chain R H; cbn [walk] in H.
+  - inversion H; subst. exact R.
+  - destruct (nth_error (subs g) j) as [c|]; [|discriminate]. apply (IH _ _ _ _ _ _ (fun x => x) H) || idtac.
+    refine (IH _ _ _ _ _ _ _ H). unfold rel in *. cbn [find]. unfold hasset at 1. cbn [snd]. unfold eff_set.
+    destruct (nilb (l_set (lim g))); cbn [negb]; [exact R|reflexivity].
+Qed.
+
+Lemma modify_sets : forall t' p inh g acc inh_t t chain,
+  sets_nested inh g = true -> walk inh g p acc = Some (inh_t, t, chain) -> sets_nested inh_t t' = true ->
+  sets_nested inh (modify g p (fun _ => t')) = true.
+Proof.
+  intros t'. induction p as [|j p IH]; intros inh g acc inh_t t chain H W Ht; cbn [walk modify] in *.
+  - inversion W; subst. exact Ht.
+  - destruct g as [gi l ss]. cbn [subs lim gid] in *. destruct (nth_error ss j) as [c|] eqn:E; [|discriminate].
+    rewrite sets_eq in *. apply andb_true_iff in H. destruct H as [Ho Hs]. rewrite Ho. cbn [andb].
+    apply forallb_replace; [exact Hs|]. exact (IH _ _ _ _ _ _ (forallb_nth _ _ _ _ Hs E) W Ht).
+Qed.
+
+Lemma walk_sets : forall p inh g acc inh_t t chain,
+  sets_nested inh g = true -> walk inh g p acc = Some (inh_t, t, chain) -> sets_nested inh_t t = true.
+Proof.
+  induction p as [|j p IH]; intros inh g acc inh_t t chain H W; cbn [walk] in *.
+  - inversion W; subst. exact H.
+  - destruct g as [gi l ss]. cbn [subs lim] in *. destruct (nth_error ss j) as [c|] eqn:E; [|discriminate].
+    rewrite sets_eq in H. apply andb_true_iff in H. destruct H as [_ Hs].
+    exact (IH _ _ _ _ _ _ (forallb_nth _ _ _ _ Hs E) W).
+Qed.
+
+Lemma apply_set : forall l r, l_set (apply_res l r) =
+  match r_set r with Some s => s | None => match r_cpu r with Some _ => [] | None => l_set l end end.
+Proof. intros l r. unfold apply_res. destruct (r_cpu r) as [[c p]|]; destruct (r_set r); reflexivity. Qed.
+
+Lemma fit_set : forall ncpu known inh g chain r, validate_fit ncpu known inh g chain r = true ->
+  match r_set r with Some s => if nilb s then True else validate_set known g chain s = true | None => True end.
+Proof.
+  intros ncpu known inh g chain r H. unfold validate_fit in H.
+  repeat (apply andb_true_iff in H; destruct H as [H ?]).
+  destruct (r_set r) as [s|]; [|exact I]. destruct (nilb s); [exact I|assumption].
+Qed.
+
+Lemma superset_nil : forall a, is_superset a [] = true. Proof. reflexivity. Qed.
+
+Definition InvS (st : forest) : Prop := forallb (sets_nested []) st = true.
+
+Lemma update_limits_inv_s : forall ncpu known inh g chain r l',
+  update_limits ncpu known inh g chain r = Some l' ->
+  l' = apply_res (lim g) r /\ validate_change (lim g) r = true /\ validate_fit ncpu known inh g chain r = true.
+Proof.
+  intros ncpu known inh g chain r l' H. unfold update_limits in H.
+  destruct (validate_change (lim g) r) eqn:E1; [|discriminate].
+  destruct (validate_fit ncpu known inh g chain r) eqn:E2; [|discriminate].
+  inversion H; subst. auto.
+Qed.
+
+Lemma step_preserves_sets : forall ncpu st q st', InvS st -> step ncpu st q = Some st' -> InvS st'.
+Proof.
+  intros ncpu st q st' HI H. unfold InvS in *. destruct q as [id r | p id r | p r]; cbn [step] in H.
+  - destruct (update_limits ncpu true [] (G id no_limits []) [] r) as [l'|]; [|discriminate].
+    destruct (validate_limits l'); [|discriminate]. inversion H; subst st'.
+    rewrite forallb_app, HI. cbn [forallb]. rewrite sets_eq. reflexivity.
+  - destruct p as [|i p]; [discriminate|].
+    destruct (nth_error st i) as [root|] eqn:Er; [|discriminate].
+    destruct (walk [] root p []) as [[[pinh P] chain]|] eqn:W; [|discriminate].
+    destruct (update_limits ncpu false (eff_set pinh (lim P)) (G id no_limits []) ((pinh, P) :: chain) r) as [l'|] eqn:U; [|discriminate].
+    destruct (negb (N.eqb id (gid P)) && validate_limits l'); [|discriminate].
+    inversion H; subst st'; clear H.
+    apply update_limits_inv_s in U. destruct U as [El [_ Hvf]]. cbn [lim] in El.
+    assert (Hroot : sets_nested [] root = true) by exact (forallb_nth _ _ _ _ HI Er).
+    pose proof (walk_sets _ _ _ _ _ _ _ Hroot W) as HP.
+    assert (R : rel pinh chain) by (apply (walk_rel _ _ _ _ _ _ _ (eq_refl : rel [] []) W)).
+    rewrite (modify_const _ _ _ _ (walk_get _ _ _ _ _ _ _ W)).
+    apply forallb_replace; [exact HI|]. apply (modify_sets _ _ _ _ _ _ _ _ Hroot W).
+    destruct P as [pi pl pss]. cbn [gid lim subs] in *. rewrite sets_eq in *.
+    apply andb_true_iff in HP. destruct HP as [Ho Hs]. rewrite Ho. cbn [andb].
+    rewrite forallb_app, Hs. cbn [forallb andb]. rewrite sets_eq. cbn [forallb]. rewrite !andb_true_r.
+    (* the new leaf's own set against what it inherits *)
+    assert (Hset : l_set l' = match r_set r with Some s => s | None => [] end).
+    { subst l'. rewrite apply_set. destruct (r_set r); [reflexivity|]. destruct (r_cpu r); reflexivity. }
+    pose proof (fit_set _ _ _ _ _ _ Hvf) as Hs'.
+    destruct (r_set r) as [s|]; rewrite Hset; [|apply orb_true_r].
+    destruct (nilb s) eqn:Ns; [apply nilb_true in Ns; rewrite Ns; apply orb_true_r|].
+    unfold validate_set in Hs'. cbn [andb] in Hs'.
+    change (fun a : anc => negb (nilb (l_set (lim (snd a))))) with hasset in Hs'.
+    cbn [find] in Hs'. unfold hasset at 1 in Hs'. cbn [snd lim] in Hs'. unfold eff_set.
+    destruct (nilb (l_set pl)) eqn:Np; cbn [negb] in Hs'.
+    + unfold rel in R. destruct (find hasset chain) as [a|]; rewrite R; [rewrite Hs'; apply orb_true_r|reflexivity].
+    + cbn [snd lim] in Hs'. rewrite Hs'. apply orb_true_r.
+  - destruct p as [|i p]; [discriminate|].
+    destruct (nth_error st i) as [root|] eqn:Er; [|discriminate].
+    destruct (walk [] root p []) as [[[inh t] chain]|] eqn:W; [|discriminate].
+    destruct (update_limits ncpu true inh t chain r) as [l'|] eqn:U; [|discriminate].
+    inversion H; subst st'; clear H.
+    apply update_limits_inv_s in U. destruct U as [El [_ Hvf]].
+    assert (Hroot : sets_nested [] root = true) by exact (forallb_nth _ _ _ _ HI Er).
+    pose proof (walk_sets _ _ _ _ _ _ _ Hroot W) as HT.
+    assert (R : rel inh chain) by (apply (walk_rel _ _ _ _ _ _ _ (eq_refl : rel [] []) W)).
+    rewrite (modify_const _ _ _ _ (walk_get _ _ _ _ _ _ _ W)).
+    apply forallb_replace; [exact HI|]. apply (modify_sets _ _ _ _ _ _ _ _ Hroot W).
+    destruct t as [ti tl tss]. cbn [gid lim subs] in *. rewrite sets_eq in *.
+    apply andb_true_iff in HT. destruct HT as [Ho Hs].
+    assert (Hset : l_set l' = match r_set r with Some s => s | None => match r_cpu r with Some _ => [] | None => l_set tl end end)
+      by (subst l'; apply apply_set).
+    pose proof (fit_set _ _ _ _ _ _ Hvf) as Hs'.
+    (* three possibilities for the new own set *)
+    assert (Hcases : l_set l' = l_set tl \/ l_set l' = [] \/
+                     (nilb (l_set l') = false /\ validate_set true (G ti tl tss) chain (l_set l') = true)).
+    { rewrite Hset. destruct (r_set r) as [s|].
+      - destruct (nilb s) eqn:Ns; [right; left; apply nilb_true; exact Ns|right; right; split; [first [exact Ns|reflexivity]|exact Hs']].
+      - destruct (r_cpu r); [right; left; reflexivity|left; reflexivity]. }
+    destruct Hcases as [Hsame|[Hnil|[Hne Hv]]].
+    + unfold eff_set in *. rewrite Hsame. rewrite Ho, Hs. reflexivity.
+    + unfold eff_set in *. rewrite Hnil. cbn [nilb is_superset forallb]. rewrite orb_true_r. cbn [andb].
+      destruct (nilb (l_set tl)) eqn:Nt; [exact Hs|].
+      rewrite forallb_forall in *. intros x Hx. exact (nested_mono x (l_set tl) inh (Hs x Hx) Nt Ho).
+    + unfold validate_set in Hv. cbn [andb lim] in Hv.
+      destruct (is_superset (l_set l') (set_resv (G ti tl tss))) eqn:Hres; cbn [negb] in Hv; [|discriminate].
+      unfold eff_set at 1. rewrite Hne.
+      apply andb_true_iff. split.
+      * destruct (nilb inh) eqn:Ni; [reflexivity|]. cbn [orb] in *.
+        destruct (is_superset (l_set tl) (l_set l')) eqn:Hshrink.
+        -- exact (superset_trans _ _ _ Ho Hshrink).
+        -- change (fun a : anc => negb (nilb (l_set (lim (snd a))))) with hasset in Hv.
+           unfold rel in R. destruct (find hasset chain) as [a|]; [rewrite R; exact Hv|subst inh; discriminate].
+      * exact (children_from_resv ti tl tss _ _ Hs Hres).
+Qed.
+
+Theorem cpuset_nesting_invariant : forall ncpu qs, inv_set (run ncpu [] qs) = true.
+Proof.
+  intros ncpu qs. unfold inv_set. change (InvS (run ncpu [] qs)).
+  assert (G0 : forall st, InvS st -> InvS (run ncpu st qs)).
+  { induction qs as [|q qs IH]; intros st HI; cbn [run]; [exact HI|].
+    apply IH. destruct (step ncpu st q) as [st'|] eqn:E; [exact (step_preserves_sets _ _ _ _ HI E)|exact HI]. }
+  apply G0. reflexivity.
+Qed.
